@@ -201,6 +201,23 @@ pub fn run(seed: u64, n: u64, target: usize, path: &str) -> Value {
                 }
                 true
             }));
+            apis.push(guard("render(parsed styles)", || {
+                // styles that came out of the parsers are rendered (Display and reset form): text -> style -> escape codes
+                for spec in ["58;2;100;100;100", "58;2;255;255;255;4", "38;2;255;255;255;48;2;255;255;255;58;2;255;255;255;1;3;4;9", "58;5;255", "4;58;2;199;200;201"] {
+                    if let Some(st) = anstyle_ls::parse(spec) {
+                        let _ = format!("{}{:#}", st, st);
+                    }
+                }
+                for spec in ["#ffffff #ffffff bold ul", "255 255 italic strike", "red #c8c8c8 reverse"] {
+                    if let Ok(st) = anstyle_git::parse(spec) {
+                        let _ = format!("{}{:#}", st, st);
+                    }
+                }
+                if let Some(st) = anstyle_ls::parse(text) {
+                    let _ = format!("{}{:#}", st, st);
+                }
+                true
+            }));
             apis.push(guard("anstyle_ls::parse(shaped)", || {
                 let chars: Vec<char> = text.chars().filter(|c| !c.is_whitespace()).take(32).collect();
                 for w in 1..=4 {
